@@ -87,14 +87,21 @@ func checkC09(c *Ctx) error {
 	res = k.E.Run(fnCyc, func(ps *symx.PathState) []any { return []any{symx.IntArg(pn), true} }, nil)
 	harnessViolations("detectCycles", res, map[string]any{"n": pn, "parallel_edges": true})
 	// (2) NewGraph on every small declaration
-	np, nt := 2, 2
+	type ngBound struct{ np, nt int }
+	bounds := []ngBound{{2, 2}}
 	if c.Thorough() {
-		np, nt = 3, 3
+		bounds = []ngBound{{3, 2}, {2, 3}}
 	}
+	np, nt := bounds[0].np, bounds[0].nt
 	fnNG := k.Pkg.Func("verifHarnessNewGraph")
 	t0 = time.Now()
-	res = k.E.Run(fnNG, func(ps *symx.PathState) []any { return []any{symx.IntArg(np), symx.IntArg(nt)} }, nil)
-	harnessViolations("NewGraph", res, map[string]any{"providers": np, "types": nt})
+	res = nil
+	for _, b := range bounds {
+		b := b
+		r := k.E.Run(fnNG, func(ps *symx.PathState) []any { return []any{symx.IntArg(b.np), symx.IntArg(b.nt)} }, nil)
+		harnessViolations("NewGraph", r, map[string]any{"providers": b.np, "types": b.nt})
+		res = append(res, r...)
+	}
 	ngReached := 0
 	for _, r := range res {
 		for _, rc := range r.Reached {
